@@ -127,8 +127,10 @@ P_C05(cfg, pre, e, post, g) ==
            E == Evicted(cfg, pre, e, post)
        IN /\ TotalSize(post) <= cfg.maxmem
           \* the oversized value itself is not cached (an older value of the key may or may not survive)
+          \* ... and displaces nothing else (dropping entries that had already expired is not a displacement:
+          \* when expired entries are purged is left open)
           /\ Oversize(cfg, e) => /\ e.k \in Dom(post) => post.store[e.k].val # e.v
-                                 /\ RemovedOthers(pre, e, post) = {}
+                                 /\ E = {}
           /\ ~Oversize(cfg, e) =>
                IF NewcomerGone(e, post)
                THEN \* only a competing never-hit newcomer may fall to its own store, and only under
